@@ -198,6 +198,16 @@ func genEventData(r *core.Run) eventlog.TCGEventData {
 	case 0:
 		return eventlog.TCGEventData{Event: genSP(r)}
 	case 1:
+		if r.Chance(6, "large-event?") {
+			// EventSize is a UINT32: one measured blob may well exceed what a GUID hand-off block
+			// (the SP800-155 events' vehicle) can carry
+			n := []int{65512, 65513, 70000, 1 << 17}[r.Intn(4, "large-event-size")]
+			big := make([]byte, n)
+			for i := range big {
+				big[i] = byte(i*13 + n)
+			}
+			return eventlog.TCGEventData{Event: &eventlog.UnknownEvent{Data: append([]byte("0123456789abcdef"), big...)}}
+		}
 		return eventlog.TCGEventData{Event: &eventlog.UnknownEvent{Data: append([]byte("0123456789abcdef"), genBytes(r, 20, "unk")...)}}
 	case 2:
 		return eventlog.TCGEventData{Event: &eventlog.UnknownEvent{Data: genBytes(r, 15, "short-unk")}}
@@ -369,10 +379,13 @@ func c18Hob(r *core.Run) {
 		default:
 			n = 1<<16 - 32 + 8*r.Intn(1200, "guid-hob-big") // up to and beyond 64 KiB
 		}
-		data := make([]byte, n)
-		for i := range data {
-			data[i] = byte(i*7 + n)
+		// the payload is a window on a larger buffer whose bytes go on after it (an event cut out
+		// of a blob that holds several)
+		back := make([]byte, n+16)
+		for i := range back {
+			back[i] = byte(i*7+n) | 1
 		}
+		data := back[:n]
 		padded := append([]byte(nil), data...)
 		for len(padded)%8 != 0 {
 			padded = append(padded, 0)
